@@ -858,14 +858,11 @@ PROPS["C07"] = dict(
                  "literals with 2^29-20 or more digits (beyond 2^31 the exponent arithmetic of exponent.rs saturates) are outside "
                  "c07_correct"],
     partial=[
-        "the f32 clause of c07_roundtrip ends at the value de.rs hands to the visitor (the exact widening F32.toF64 b); that serde's "
-        "`as f32` maps it back to b (F64.toF32 (F32.toF64 b) = b) is not stated as a theorem; it is covered by f32pr and the "
-        "exhaustive f32all sweep",
         "the 'every finite f32 survives in every configuration' clause (default build: f64 conversion then `as f32`) is a finite "
         "enumeration in the harness (f32all, 2^32 patterns in fr, fr+ap and default builds), not a theorem",
         "c07_all_sources links the Value target of the byte machine (all three sources, nested values) to deFloatRoundtrip; the typed "
         "f64 target uses the same Model.Num.convertRoundtrip (Typed.parserNumber), the typed f32 target (Typed.f32Roundtrip) is not "
-        "linked by a theorem (and still transcribes the pre-repair cast of a negative integer beyond i64: see the report)",
+        "linked to deFloatRoundtrip true by a theorem (carried by the correspondence runs of C07 and of the typed checks)",
         "limb-level arithmetic of lexical/math.rs is abstracted by Nat in Model.Lexical (a limb-level model is a separate piece of work)",
     ],
     technique="Lean 4: extracted lexical tables proved against exact powers by kernel evaluation; transcription of lexical and its de.rs "
@@ -879,7 +876,8 @@ PROPS["C07"] = dict(
                "Spec.Decimal's exact value, rejected exactly when Overflows64/32), c07_underflow, c07_other_literals (integers, "
                "exponent beyond i32), c07_all_sources (the byte machine under float_roundtrip, from_str/from_slice/from_reader, "
                "Value target, returns exactly that number or NumberOutOfRange), c07_roundtrip (under the named hypothesis "
-               "RyuShortest every finite f64/f32 is read back bit for bit; c04_value_fr: hence every well-formed Value round-trips "
+               "RyuShortest every finite f64/f32 is read back bit for bit - for f32 including the visitor's `as f32` on the exactly "
+               "widened result, F64.toF32 (F32.toF64 b) = b; c04_value_fr: hence every well-formed Value round-trips "
                "under float_roundtrip). Layers: c07_split (the leaf of de.rs's digit collection and its arguments denote exactly "
                "the literal's digits and decimal exponent); c07_cached_power_accuracy (10 small cached powers exact, 66 large ones "
                "truncated) and c07_power_tables; c07_fast_path_exact; c07_into_float_rne; c07_moderate_path_sound (mul = "
